@@ -28,6 +28,16 @@ TP == <<
   WhenP(3, Conn(1, Guard(11), TT_, Use(11))), WhenP(3, Conn(1, Guard(12), TT_, Use(12))),
   WhenP(2, <<"like", G_(G_(Rv, "owner"), "s"), <<107, Star>>>>), WhenP(2, B_("eq", G_(Pv, "s"), G_(G_(Rv, "owner"), "s"))),
   WhenP(2, And_(H_(Pv, "mgr"), B_("hasTag", Pv, G_(G_(Pv, "mgr"), "s")))),
+  \* extension arithmetic around zero and before the epoch (floor / truncate conventions)
+  WhenP(2, B_("eq", XC("toTime", <<XC("datetime", <<LitS(<<49, 57, 54, 57, 45, 49, 50, 45, 51, 49>>)>>)>>), XC("duration", <<LitS(<<48, 109, 115>>)>>))),   \* midnight before the epoch: 0ms, not a whole day
+  WhenP(2, B_("less", XC("toTime", <<XC("datetime", <<LitS(<<49, 57, 54, 57, 45, 49, 50, 45, 51, 49, 84, 50, 51, 58, 53, 57, 58, 53, 57, 46, 57, 57, 57, 90>>)>>)>>), XC("duration", <<LitS(<<49, 100>>)>>))),
+  WhenP(2, B_("eq", XC("toDate", <<XC("datetime", <<LitS(<<49, 57, 54, 57, 45, 49, 50, 45, 51, 49, 84, 48, 48, 58, 48, 48, 58, 48, 49, 90>>)>>)>>), XC("datetime", <<LitS(<<49, 57, 54, 57, 45, 49, 50, 45, 51, 49>>)>>))),
+  WhenP(2, B_("eq", XC("offset", <<XC("toDate", <<XC("datetime", <<LitS(<<49, 57, 54, 48, 45, 48, 50, 45, 50, 57, 84, 49, 50, 58, 51, 48, 58, 48, 48, 45, 48, 53, 48, 48>>)>>)>>), XC("toTime", <<XC("datetime", <<LitS(<<49, 57, 54, 48, 45, 48, 50, 45, 50, 57, 84, 49, 50, 58, 51, 48, 58, 48, 48, 45, 48, 53, 48, 48>>)>>)>>)>>), XC("datetime", <<LitS(<<49, 57, 54, 48, 45, 48, 50, 45, 50, 57, 84, 49, 55, 58, 51, 48, 58, 48, 48, 90>>)>>))),
+  WhenP(2, B_("eq", XC("durationSince", <<XC("datetime", <<LitS(<<49, 57, 54, 57, 45, 49, 50, 45, 51, 49>>)>>), XC("datetime", <<LitS(<<49, 57, 55, 48, 45, 48, 49, 45, 48, 49>>)>>)>>), XC("duration", <<LitS(<<45, 49, 100>>)>>))),
+  WhenP(2, XC("lessThan", <<XC("decimal", <<LitS(<<45, 48, 46, 48, 48, 48, 49>>)>>), XC("decimal", <<LitS(<<48, 46, 48>>)>>)>>)),
+  WhenP(2, XC("greaterThanOrEqual", <<XC("decimal", <<LitS(<<57, 50, 50, 51, 51, 55, 50, 48, 51, 54, 56, 53, 52, 55, 55, 46, 53, 56, 48, 55>>)>>), XC("decimal", <<LitS(<<45, 57, 50, 50, 51, 51, 55, 50, 48, 51, 54, 56, 53, 52, 55, 55, 46, 53, 56, 48, 56>>)>>)>>)),
+  WhenP(2, B_("eq", XC("toSeconds", <<XC("duration", <<LitS(<<45, 49, 115, 53, 48, 48, 109, 115>>)>>)>>), LitL(0 - 1))),   \* truncation toward zero
+  WhenP(2, B_("lessEq", XC("duration", <<LitS(<<45, 49, 100>>)>>), XC("duration", <<LitS(<<45, 50, 51, 104, 53, 57, 109, 53, 57, 115, 57, 57, 57, 109, 115>>)>>))),
   \* whole records compared: every attribute of the record type matters, optional ones included
   WhenP(2, B_("eq", G_(Pv, "rec"), G_(G_(Rv, "owner"), "rec"))),
   WhenP(2, B_("contains", <<"set", <<G_(G_(Rv, "owner"), "rec"), G_(<<"lit", TU2>>, "rec")>>>>, G_(Pv, "rec"))),
